@@ -1,0 +1,20 @@
+//go:build verif
+
+package query
+
+import "sort"
+
+// commitOrder fixes the order in which COMMIT handles files so that simulated
+// runs can be replayed; the shipped build ranges over the map directly.
+func commitOrder(m map[string]*FileInfo) []*FileInfo {
+	keys := make([]string, 0, len(m))
+	for k := range m {
+		keys = append(keys, k)
+	}
+	sort.Strings(keys)
+	l := make([]*FileInfo, 0, len(m))
+	for _, k := range keys {
+		l = append(l, m[k])
+	}
+	return l
+}
